@@ -15,9 +15,10 @@ logging.disable(logging.CRITICAL)
 import numpy as np  # noqa: E402
 import zlib  # noqa: E402
 from traits.trait_list_object import TraitListObject  # noqa: E402
+from traits.trait_dict_object import TraitDictObject  # noqa: E402
 from traits.api import (  # noqa: E402
     Any, Array, Bool, Bytes, CBool, CBytes, CComplex, CFloat, CInt, CStr, Callable, Complex, Either, Enum, Float,
-    HasTraits, Instance, Int, List, Map, Module, PrefixList, PrefixMap, Range, Regex, Str, String, Supports, This, Title,
+    Dict, HasTraits, Instance, Int, List, Map, Module, PrefixList, PrefixMap, Range, Regex, Str, String, Supports, This, Title,
     TraitError, Tuple, Type, Undefined, Union, ValidatedTuple)
 
 SCALE = 1000
@@ -127,7 +128,7 @@ CLASSES = {0: object, 1: type(None), 2: bool, 3: int, 4: float, 5: complex, 6: s
            10: IntSub, 11: FloatSub, 12: StrSub, 13: TupSub, 14: np.int32, 15: np.int64, 16: np.uint8,
            17: np.float32, 18: np.float64, 19: np.bool_, 20: Idx, 21: Flt, 22: Cpx, 23: types.FunctionType,
            24: type, 25: types.ModuleType, 26: dict, 28: types.BuiltinFunctionType,
-           30: Proxy, 31: type(Undefined), 100: Foo, 101: Bar, 102: Baz, 103: FooAdapter, 110: HostBase, 111: HostSubBase}
+           30: Proxy, 31: type(Undefined), 32: dict, 100: Foo, 101: Bar, 102: Baz, 103: FooAdapter, 110: HostBase, 111: HostSubBase}
 NPK = {14: np.int32, 15: np.int64, 16: np.uint8, 17: np.float32, 18: np.float64}
 OTHERS = {-1: lambda: {}, -2: lambda: {1: 2}, -3: lambda: {1}, 1: lambda: object(), 2: lambda: frozenset([1])}
 MODULES = {0: math, 1: re}
@@ -293,6 +294,8 @@ class Pool:
             return Proxy(self.obj(j[1], j[2]))
         if k == "PUndefined":
             return Undefined
+        if k == "PDict":
+            return {self.val(a): self.val(b) for a, b in j[1]}
         raise ValueError(j)
 
     # ---- Python value -> JSON (exact type tag + atom) ----
@@ -355,8 +358,8 @@ class Pool:
         for k, c in MODULES.items():
             if v is c:
                 return ["PModule", k]
-        if t is dict:
-            return ["POther", -1 if not v else -2]
+        if t is dict or t is TraitDictObject:    # a Dict trait stores a TraitDictObject copy: a dict for the property
+            return ["PDict", [[self.enc(a), self.enc(b)] for a, b in v.items()]]
         if t is set:
             return ["POther", -3]
         if t is frozenset:
@@ -450,6 +453,8 @@ def trait(d, pool):
         return PrefixMap({"".join(chr(c) for c in s): pool.val(x) for s, x in d[1]})
     if k == "DList":
         return List(trait(d[1], pool), minlen=d[2], maxlen=d[3])
+    if k == "DDict":
+        return Dict(trait(d[1], pool), trait(d[2], pool))
     if k == "DRangeDyn":       # Range(low='<name>', high='<name>'): the bounds are other traits of the same class
         return Range(low=ATTR_NAME[d[1]], high=ATTR_NAME[d[2]], exclude_low=bool(d[3] & 1), exclude_high=bool(d[3] & 2))
     if k == "DArray":
@@ -466,6 +471,8 @@ def regex_ids(d, acc=None):
     acc = set() if acc is None else acc
     if d[0] == "DList":
         return regex_ids(d[1], acc)
+    if d[0] == "DDict":
+        return regex_ids(d[2], regex_ids(d[1], acc))
     if d[0] == "DString" and d[3] is not None:
         acc.add(d[3])
     for x in d[1:]:
@@ -480,6 +487,8 @@ def adapt_classes(d, acc=None):
     acc = set() if acc is None else acc
     if d[0] == "DList":
         return adapt_classes(d[1], acc)
+    if d[0] == "DDict":
+        return adapt_classes(d[2], adapt_classes(d[1], acc))
     if d[0] == "DAdapt":
         acc.add(d[1])
     for x in d[1:]:
@@ -499,12 +508,17 @@ def array_nodes(d, acc=None):
             array_nodes(y, acc)
     elif d[0] == "DList":
         array_nodes(d[1], acc)
+    elif d[0] == "DDict":
+        array_nodes(d[1], acc)
+        array_nodes(d[2], acc)
     return acc
 
 
 def mentions(d, names):
     if d[0] == "DList":
         return mentions(d[1], names)
+    if d[0] == "DDict":
+        return mentions(d[1], names) or mentions(d[2], names)
     if d[0] in names or (d[0] == "DCast" and d[1] in names):
         return True
     for x in d[1:]:
@@ -517,6 +531,10 @@ def mentions(d, names):
 
 def subvalues(v):
     yield v
+    if isinstance(v, dict):
+        for a, b in v.items():
+            yield from subvalues(a)
+            yield from subvalues(b)
     if isinstance(v, (tuple, list)) and len(v) < 50:
         for x in v:
             yield from subvalues(x)
